@@ -118,7 +118,11 @@ class rcu_list {
 
         std::atomic<node*> next{nullptr};
         std::atomic<node*> back{nullptr};
+#ifdef GMLC_TDC_CONCURRENCY_VERIF
+        ::gmlc_verif::plain<bool> deleted{false};
+#else
         bool deleted{false};
+#endif
         T data;
     };
 
